@@ -212,12 +212,30 @@ fn payload_string(p: Box<dyn std::any::Any + Send>) -> String {
     }
 }
 
+// nesting depth of self-describing descriptors, per simulated task
+#[cfg(feature = "sim")]
+shuttle::thread_local! { static DESC_DEPTH: std::cell::Cell<u32> = std::cell::Cell::new(0); }
+#[cfg(not(feature = "sim"))]
+thread_local! { static DESC_DEPTH: std::cell::Cell<u32> = std::cell::Cell::new(0); }
+
 /// one marker-descriptor registration through the given handle; ids >= REENTRANT_DESC re-enter the
 /// engine from inside the descriptor
 fn set_desc(m: &mut DescriptorManager, kind: DKind, name: &str, id: usize) {
     fn mark(id: usize, parts: String) -> String {
         if id >= EMPTY_DESC {
             String::new()
+        } else if id >= SELF_DESC {
+            if DESC_DEPTH.with(|d| d.get()) > 0 {
+                return format!("<{}|{}|~>", id, parts);
+            }
+            DESC_DEPTH.with(|d| d.set(1));
+            let text = crate::expr::Prog::one(self_desc_program()).text();
+            let inner = match parse_expression(&text) {
+                Ok(a) => a.describe(),
+                Err(e) => format!("ERR {}", e),
+            };
+            DESC_DEPTH.with(|d| d.set(0));
+            format!("<{}|{}|{}>", id, parts, inner)
         } else if id >= REENTRANT_DESC {
             let inner = match parse_expression("inner_q") {
                 Ok(a) => a.describe(),
